@@ -86,7 +86,6 @@ JudgeCmd(c) ==
     LET tab == c.tab
         cl  == c.cl
         ok  == CmdOK(tab, cl)
-        naive == RunNaive(tab, cl, Defaults(tab), 1)
         badv == {j \in 1..Len(tab) : c.vals[j] \notin AllowedFinal(tab, cl, tab[j].name)}
     IN
     IF {View(c.view, tab[j]) : j \in 1..Len(tab)} # {c.otab[j] : j \in 1..Len(c.otab)}
@@ -99,8 +98,7 @@ JudgeCmd(c) ==
          THEN LET j == CHOOSE x \in badv : \A y \in badv : x <= y
                   nm == tab[j].name
               IN V(c, "Value",
-                   IF Overtaken(tab, cl, nm) /\ c.vals[j] = naive[nm] THEN "ExplicitBeatsForwarded@forwarder-after-explicit"
-                   ELSE IF \E x \in 1..Len(nm) : Ch(nm, x) = "." THEN "module-option:" \o nm \o ":" \o c.id
+                   IF \E x \in 1..Len(nm) : Ch(nm, x) = "." THEN "module-option:" \o nm \o ":" \o c.id
                    ELSE Lookup(tab, nm).kind \o "/" \o Lookup(tab, nm).dep.f \o "<-" \o FormSig(tab, cl),
                    j, <<AllowedFinal(tab, cl, nm)>>, <<c.vals[j]>>)
     ELSE IF Range(c.notes) # AllNotes(tab, cl)
